@@ -269,7 +269,9 @@ class Engine:
                 mkey = ("literal", repr(kind), tuple(t.get_id() for t in terms))
                 if mkey in st.memo:
                     return st.memo[mkey]
-                new = kind.named(st, new)
+                c = z3.Const(f"lst!{abs(hash(mkey)) % (10 ** 12)}", kind.sort())
+                st.assume(c == new)
+                new = c
                 st.assume(kind.lemma_literal(new, terms))
                 st.memo[mkey] = V(kind, new)
             return V(kind, new)
@@ -765,6 +767,10 @@ class Engine:
                 def rd(st2):
                     if kind.smt:
                         yield st2, self.read_field(st2, obj, owner, attr, kind)
+                    elif (f"{owner}.{attr}", obj.term.get_id()) in st2.pyheap:
+                        yield st2, st2.pyheap[(f"{owner}.{attr}", obj.term.get_id())]
+                    elif self.index.method(cls, attr) is not None or f"{cls}.{attr}" in self.overrides:
+                        yield st2, VFunc("bound", recv=obj, name=attr, cls=cls)     # method not overridden on the instance
                     else:
                         yield st2, self.read_pyfield(st2, obj, owner, attr, kind)
                 yield from self.nonnull(obj, st, node, rd)
